@@ -112,6 +112,12 @@ pub enum MOp {
     UnsolRepeat,
     /// raw application fragment from this source address
     Raw { src: u16, bytes: Vec<u8> },
+    /// octets put on the wire as they are (not framed): link-level garbage, bad CRCs, partial frames
+    Wire(Vec<u8>),
+    /// `n` LINK_STATUS frames from outstation `assoc` (harmless padding that flushes a partial frame out of a resynchronising parser)
+    LinkPadding { assoc: usize, n: usize },
+    /// forget the queued reply policies of every outstation
+    ClearReplies,
     /// how many fragments a READ response series has and how many objects each carries
     ReadShape { assoc: usize, fragments: Vec<u8> },
     /// the `at`-th fragment (1 = second) of the next READ response series deviates
@@ -267,6 +273,17 @@ impl PeerShared {
     }
 
     /// put an application fragment on the wire toward the master, `delay` ms from now
+    /// raw octets toward the master
+    pub fn transmit_wire(&mut self, wire: &[u8]) {
+        let (t, _) = order_now();
+        if let Some((to_client, _)) = self.conn.clone() {
+            let lat = to_client.lock().unwrap().latency_ms;
+            let due = (t + lat).max(self.last_delivery_ms);
+            self.last_delivery_ms = due;
+            io::chan_push(&to_client, due, wire.to_vec());
+        }
+    }
+
     pub fn transmit(&mut self, src: u16, bytes: &[u8], kind: &str, valid: bool, answers: Option<u64>, delay: u64) {
         let (t, order) = order_now();
         let dest = self.master_addr;
@@ -1245,6 +1262,30 @@ pub async fn drive(sim: &Sim, case: &SmastCase) -> MastRun {
             MOp::Raw { src, bytes } => {
                 let mut p = peer.lock().unwrap();
                 p.transmit(*src, bytes, "raw", false, None, 0);
+            }
+            MOp::Wire(bytes) => {
+                let mut p = peer.lock().unwrap();
+                p.transmit_wire(bytes);
+                sim.count("fault.wire_garbage");
+            }
+            MOp::LinkPadding { assoc, n } => {
+                let mut p = peer.lock().unwrap();
+                let k = p.outstations.len().max(1);
+                let addr = p.outstations[*assoc % k].address;
+                let master = p.master_addr;
+                let mut wire = Vec::new();
+                for _ in 0..*n {
+                    wire.extend(p.link.encode_link_status_response(addr, master));
+                }
+                p.transmit_wire(&wire);
+            }
+            MOp::ClearReplies => {
+                let mut p = peer.lock().unwrap();
+                for o in p.outstations.iter_mut() {
+                    o.replies.clear();
+                    o.series.clear();
+                    o.series_dev = None;
+                }
             }
             MOp::ReadShape { assoc, fragments } => {
                 let mut p = peer.lock().unwrap();
